@@ -32,13 +32,13 @@ DESCR = {"B3": "Bundle<SE2,R2,SO3>", "B5": "Bundle<SO2,SO3,SE2,R2,SE3>", "BN": "
 PLAN = {
     # model: (depth, alphabet) checked exhaustively per model type; d1: replay every single step; sim: (traces, sample) at depth 3
     "quick": dict(types=["SO3d", "SE2d", "SE3d", "Gald", "SEK3_2d", "B3d", "SE3f", "C1f"],
-                  model=[(2, "core")], deep=[], d2cap=120, sim=(12, 120), asan=False, procs=8, chunk=1200),
+                  model=[(2, "core")], deep=[], d2cap=120, sim=(12, 120), asan=False, procs=6, chunk=1200),
     "thorough": dict(types=["SO2d", "SO3d", "SE2d", "SE3d", "C1f", "Gald", "SEK3_2d", "SEK3_3d", "B3d", "B5d", "BNd", "SE3f", "Galf", "SE2f"],
                      model=[(2, "full")], deep=[("SO2", 3, "core")],
-                     d2cap=3000, sim=(30, 1500), asan=True, procs=8, chunk=2500),
+                     d2cap=3000, sim=(30, 1500), asan=True, procs=6, chunk=2500),
 }
 FULL_D2 = ("SO2", "SO3", "SE2")      # model types whose full alphabet (431, 520, 873 steps) is explored to depth 2
-SPEC_MUTANTS = [("alias", "SE3"), ("notemp", "SE2"), ("short", "SE2"), ("galso3", "Gal"), ("dofpsum", "B3")]
+SPEC_MUTANTS = [("alias", "SE3"), ("notemp", "SE2"), ("ctornorm", "SE3"), ("short", "SE2"), ("galso3", "Gal"), ("dofpsum", "B3")]
 
 ASSUME = [
     "the documented coefficient layouts (header comments 'Memory layout', transcribed in spec/MapLayout.tla) are the reference for every range",
@@ -406,7 +406,7 @@ def _check(oc, prop, tier, seed, replay, workdir):
         if len(parts) >= 2:
             seen_ops.setdefault(parts[1], set()).add(parts[0])
     for tn, ops in seen_ops.items():
-        for o in need:
+        for o in need + (["partsctor", "subsetid", "submul", "subconst"] if "subassign" in ops else []):
             if o not in ops:
                 missing.append(f"{o}|{tn}")
     if missing and not any(b.get("clause") == "C16.same.crash" for b, _ in oc.violations):
